@@ -177,6 +177,9 @@ func (eb ExposureBias) MarshalText() (text []byte, err error) {
 // UnmarshalText implements the TextUnmarshaler interface that is
 // used by encoding/json
 func (eb *ExposureBias) UnmarshalText(text []byte) (err error) {
+	if len(text) == 0 {
+		return
+	}
 	if text[0] == '0' {
 		return
 	}
